@@ -175,10 +175,30 @@ def gen():
         ("char_distance", r"let\s+end\s*=\s*\(cpt\s*\+\s*offset\)\.min\(self\.mod_chars\.len\(\)\);\s*end\s*-\s*cpt", "char_distance = min(cpt + offset, mod_chars.len()) - cpt"),
     ]:
         need(pat, F.fn_body(mod, fn, MOD), "%s: %s" % (MOD, what))
-    m = need(r"let\s+char_len\s*=\s*self\.mod_chars\.len\(\);\s*for\s+i\s+in\s+\(char_idx\s*\+\s*(\d+)\)\.\.char_len\s*\{\s*let\s+byte_idx\s*=\s*self\.mod_c2b\[i\];\s*"
-             r"if\s+self\.can_bow\(byte_idx\)\s*\{\s*return\s+i\s*-\s*char_idx;\s*\}\s*\}\s*char_len\s*-\s*char_idx", F.fn_body(mod, "get_word_candidate_length", MOD),
-             "get_word_candidate_length body")
-    out.append("Definition wcl_first_offset : nat := %d.\n" % int(m.group(1)))
+    # the first character index i in (char_idx + K)..char_len whose byte offset mod_c2b[i] may begin a word, as i - char_idx;
+    # char_len - char_idx when there is none.  Spellings: `for` with an early return, or Range::find (first match in range
+    # order) followed by match / map_or / unwrap_or
+    wb = squeeze(F.fn_body(mod, "get_word_candidate_length", MOD))
+    head = r"let (?P<len>\w+) = self\.mod_chars\.len\(\); "
+    rng = r"\(char_idx \+ (?P<k>\d+)\)\.\.(?P=len)"
+    find = r"\(" + rng + r"\)\.find\(\|&(?P<i>\w+)\| self\.can_bow\(self\.mod_c2b\[(?P=i)\]\)\)"
+    m = None
+    for body in [
+        r"for (?P<i>\w+) in " + rng + r" \{ let (?P<b>\w+) = self\.mod_c2b\[(?P=i)\]; if self\.can_bow\((?P=b)\) \{ return (?P=i) - char_idx; \} \} (?P=len) - char_idx",
+        r"for (?P<i>\w+) in " + rng + r" \{ if self\.can_bow\(self\.mod_c2b\[(?P=i)\]\) \{ return (?P=i) - char_idx; \} \} (?P=len) - char_idx",
+        r"let (?P<b>\w+) = " + find + r"; match (?P=b) \{ Some\((?P<j>\w+)\) => (?P=j) - char_idx, None => (?P=len) - char_idx,? \}",
+        r"let (?P<b>\w+) = " + find + r"; match (?P=b) \{ None => (?P=len) - char_idx, Some\((?P<j>\w+)\) => (?P=j) - char_idx,? \}",
+        r"match " + find + r" \{ Some\((?P<j>\w+)\) => (?P=j) - char_idx, None => (?P=len) - char_idx,? \}",
+        find + r"\.map_or\((?P=len) - char_idx, \|(?P<j>\w+)\| (?P=j) - char_idx\)",
+        find + r"\.unwrap_or\((?P=len)\) - char_idx",
+    ]:
+        m = re.search(head + body + r"$", wb)
+        if m:
+            wcl_k = int(m.group("k"))
+            break
+    if not m:
+        raise F.FactError("get_word_candidate_length body: shape not recognised")
+    out.append("Definition wcl_first_offset : nat := %d.\n" % wcl_k)
     need(r"self\.mod_chars\.push\(%(ch)s\);\s*let\s+cat\s*=\s*cats\.get_category_types\(%(ch)s\);\s*self\.mod_cat\.push\(cat\);\s*self\.mod_c2b\.push\(%(b)s\);" % {"ch": chv, "b": bidx}, bd,
          "build: one entry of mod_chars / mod_cat / mod_c2b per character")
     need(r"self\.mod_bow\.resize\(self\.modified\.len\(\),\s*false\);", bd, "build: mod_bow has one entry per byte")
